@@ -1124,10 +1124,10 @@ def new_out():
             "warn": {"unreachable": 0, "unused_assignment": 0, "unused_variable": 0, "unused_function": 0}}
 
 
-def run_stream(env, name, cases, out, model=True, keys=None):
+def run_stream(env, name, cases, out, model=True, keys=None, timeout=1200):
     order = [c for c, _ in cases]
     srcs = dict(cases)
-    recs = langrun.run_impl(env, name, cases, CFGS, timeout=1200)
+    recs = langrun.run_impl(env, name, cases, CFGS, timeout=timeout)
     mrecs, verdicts = {}, {}
     if model:
         # a program on which the implementation itself died natively or timed out in the plan-less run
@@ -1182,7 +1182,8 @@ def shrink(env, f):
         if n[0] > 150:
             return False
         o = new_out()
-        run_stream(env, "shrink", [("s", "\n".join(cand) + "\n")], o, model=False)
+        # removing a line can make a loop endless: a candidate that does not finish quickly is rejected
+        run_stream(env, "shrink", [("s", "\n".join(cand) + "\n")], o, model=False, timeout=5)
         return any(x["kind"] == f["kind"] for x in o["failures"])
     small = common.ddmin_lines(lines, pred, keep_head=0)
     g = dict(f)
